@@ -35,6 +35,27 @@ def enter_scratch() -> str:
     return _scratch
 
 
+def limit_worker() -> None:
+    """Pool initializer: a worker that runs away (a changed library that never quiesces, an exploration that does
+    not terminate) hits a MemoryError at 6 GB instead of taking the machine down with it."""
+    import resource
+    try:
+        resource.setrlimit(resource.RLIMIT_AS, (6 << 30, 6 << 30))
+    except (ValueError, OSError):
+        pass
+
+
+def watchdog() -> None:
+    """A check that is still running after this long has failed as machinery (exit 2), whatever the cause."""
+    import signal
+
+    def fire(_sig, _frm):
+        raise TimeoutError("the check exceeded its time budget")
+
+    signal.signal(signal.SIGALRM, fire)
+    signal.alarm(2400 if tier() == "quick" else 6 * 3600)
+
+
 def seed() -> int:
     try:
         return int(os.environ.get("VERIF_SEED", "0"))
